@@ -116,6 +116,29 @@ pub fn cases_cmd(args: &[String]) {
                 }
             }
         }
+        "synth" => {
+            // C04: conflict graphs assembled from the facts of a universe (synth.rs)
+            for prof in rest.split(',') {
+                let g = GenParams::profile(prof);
+                let mut rng = Rng::new(seed ^ crate::plans::hash(prof) ^ 0x5E);
+                for _ in 0..n {
+                    let mut r = rng.fork();
+                    let (u, p) = gen_universe(&mut r, &g);
+                    for _ in 0..3 {
+                        emit(
+                            &mut out,
+                            &Case {
+                                id: id(),
+                                profile: format!("synth-{prof}"),
+                                u: u.clone(),
+                                ps: vec![p.clone()],
+                                cfg: Cfg { mode: "synth".into(), sched_seed: r.next() % 1_000_000, ..base_cfg.clone() },
+                            },
+                        );
+                    }
+                }
+            }
+        }
         "template" => {
             let mut rng = Rng::new(seed ^ hash(rest) ^ 0x7E3);
             for _ in 0..n {
